@@ -43,7 +43,10 @@ def gen_recovery(rng):
             items.insert(0, Item(T(rng.choice(g.terms))))
         elif shape < 0.85:
             # error inside an existing alternative's context: copy a prefix
-            base = rng.choice(nt.alts)
+            plain = [a for a in nt.alts if not any(it.sym.k in ("err", "L", "R") for it in a.items)]
+            if not plain:
+                continue
+            base = rng.choice(plain)
             k = rng.randint(0, len(base.items))
             items = [Item(copy.deepcopy(it.sym)) for it in base.items[:k]] + items
         alt = Alt(items)
